@@ -2,13 +2,15 @@ import HapVerif.Model.Http
 
 /-! # Specification: how a conformant accessory *writes* HTTP/1.1 responses and EVENT/1.0 messages
 
-Independent of the parser: `write` lays a message out as bytes (status line, header lines, an optional
-`Content-Length` line, the blank line, the body); `Good` lists what the writer promises (no stray separators, ASCII
-head, canonical header names, decimal numbers).  `WMsg.msg` is what the application must be handed.  C07's
-correctness theorems say that the parser, fed any segmentation of `writeAll ms`, hands over exactly
-`ms.map WMsg.msg` and consumes exactly the bytes written. -/
+Independent of the parser: `write` lays a message out as bytes - status line, header lines, the framing header
+(`Content-Length: n`, `Transfer-Encoding: chunked`, or none for a message without body), the blank line, then the
+body as such or as a sequence of chunks closed by the zero chunk.  `Good` lists what the writer promises (no stray
+separators, ASCII head, header names in canonical form, numbers that say what they should).  `WMsg.msg` is what the
+application must be handed.  C07's correctness theorems say that the parser, fed any segmentation of
+`writeAll ms`, hands over exactly `ms.map WMsg.msg` and consumes exactly the bytes written. -/
 
 namespace HapVerif.Http
+
 def crlf : Bytes := [13, 10]
 
 /-- no CR LF pair inside -/
@@ -17,14 +19,19 @@ def noCRLF : Bytes → Bool
   | [_] => true
   | a :: b :: t => !(a = 13 ∧ b = 10) && noCRLF (b :: t)
 
-/-- an HTTP/1.1 or EVENT/1.0 message as a conformant accessory writes it (no chunking; `Content-Length` iff
-    there is a body) -/
+inductive Framing
+  | none                                        -- no body, no framing header
+  | length (lenText : Bytes)                    -- `Content-Length: <lenText>`, then the body
+  | chunked (chunks : List (Bytes × Bytes))     -- `Transfer-Encoding: chunked`, then (size in hex, data) ... and `0`
+  deriving Repr
+
+/-- an HTTP/1.1 or EVENT/1.0 message as an accessory writes it -/
 structure WMsg where
   version : Bytes              -- e.g. `HTTP/1.1`, `EVENT/1.0`
   codeText : Bytes             -- the decimal rendering of the status code
   reason : Bytes
-  headers : List (Bytes × Bytes)   -- other than Content-Length / Transfer-Encoding, names in canonical form
-  lenText : Bytes              -- decimal rendering of the body length (used iff the body is non-empty)
+  headers : List (Bytes × Bytes)   -- other than the framing header
+  framing : Framing
   body : Bytes
   deriving Repr
 
@@ -36,11 +43,34 @@ def writeHeaders : List (Bytes × Bytes) → Bytes
 
 def statusLine (m : WMsg) : Bytes := m.version ++ 32 :: (m.codeText ++ 32 :: m.reason)
 
-def write (m : WMsg) : Bytes :=
-  statusLine m ++ crlf ++ (writeHeaders m.headers ++
-    ((if m.body = [] then [] else (strCL ++ 58 :: 32 :: m.lenText) ++ crlf) ++ (crlf ++ m.body)))
+def Framing.header : Framing → Option (Bytes × Bytes)
+  | .none => Option.none
+  | .length lt => some (strCL, lt)
+  | .chunked _ => some (strTE, strChunked)
 
-/-- what makes a header acceptable to the parser as written -/
+def Framing.lines (f : Framing) : Bytes :=
+  match f.header with
+  | Option.none => []
+  | some h => headerLine h ++ crlf
+
+def writeChunks : List (Bytes × Bytes) → Bytes
+  | [] => 48 :: (crlf ++ crlf)                                  -- `0 CRLF CRLF`
+  | c :: cs => c.1 ++ crlf ++ (c.2 ++ crlf ++ writeChunks cs)
+
+def joinChunks : List (Bytes × Bytes) → Bytes
+  | [] => []
+  | c :: cs => c.2 ++ joinChunks cs
+
+def WMsg.wireBody (m : WMsg) : Bytes :=
+  match m.framing with
+  | .chunked cs => writeChunks cs
+  | _ => m.body
+
+def write (m : WMsg) : Bytes :=
+  statusLine m ++ crlf ++ (writeHeaders m.headers ++ (m.framing.lines ++ (crlf ++ m.wireBody)))
+
+/-- what makes an (ordinary) header acceptable as written: no colon in the name, ASCII, name and value in the
+    form the parser normalises to (`Title-Case` name, no surrounding white space), not a framing header -/
 structure GoodHeader (h : Bytes × Bytes) : Prop where
   nocolon : (58 : UInt8) ∉ h.1
   ascii : (h.1 ++ 32 :: h.2).all (· < 128) = true
@@ -50,6 +80,12 @@ structure GoodHeader (h : Bytes × Bytes) : Prop where
   notCL : h.1 ≠ strCL
   nocrlf : noCRLF (headerLine h) = true
 
+/-- the framing says what the body is -/
+def Framing.Good : Framing → Bytes → Prop
+  | .none, body => body = []
+  | .length lt, body => parseDec lt = some body.length
+  | .chunked cs, body => body = joinChunks cs ∧ ∀ c ∈ cs, c.2 ≠ [] ∧ parseHex c.1 = some c.2.length
+
 structure Good (m : WMsg) (code : Nat) : Prop where
   vsp : (32 : UInt8) ∉ m.version
   csp : (32 : UInt8) ∉ m.codeText
@@ -57,18 +93,24 @@ structure Good (m : WMsg) (code : Nat) : Prop where
   code : parseDec m.codeText = some code
   snocrlf : noCRLF (statusLine m) = true
   hdrs : ∀ h ∈ m.headers, GoodHeader h
-  lascii : m.body ≠ [] → m.lenText.all (· < 128) = true
-  lval : m.body ≠ [] → strip (32 :: m.lenText) = m.lenText
-  len : m.body ≠ [] → parseDec m.lenText = some m.body.length
-  lnocrlf : m.body ≠ [] → noCRLF (strCL ++ 58 :: 32 :: m.lenText) = true
+  framing : m.framing.Good m.body
 
-/-- the parser's view of a written message -/
-def WMsg.parsedHeaders (m : WMsg) : List (Bytes × Bytes) :=
-  m.headers ++ (if m.body = [] then [] else [(strCL, m.lenText)])
+/-- executable form of `Good` (sound: `goodB_sound`), used by the driver to certify the harness's messages -/
+def goodHeaderB (h : Bytes × Bytes) : Bool :=
+  !h.1.contains 58 && (h.1 ++ 32 :: h.2).all (· < 128) && title (strip h.1) == h.1 && strip (32 :: h.2) == h.2 &&
+    h.1 != strTE && h.1 != strCL && noCRLF (headerLine h)
 
-def WMsg.core (m : WMsg) (code : Nat) : Core :=
-  { state := 2, version := m.version, code := code, headers := m.parsedHeaders,
-    clen := if m.body = [] then none else some m.body.length, body := m.body }
+def Framing.goodB : Framing → Bytes → Bool
+  | .none, body => body.isEmpty
+  | .length lt, body => parseDec lt == some body.length
+  | .chunked cs, body => body == joinChunks cs && cs.all (fun c => !c.2.isEmpty && parseHex c.1 == some c.2.length)
+
+def goodB (m : WMsg) (code : Nat) : Bool :=
+  !m.version.contains 32 && !m.codeText.contains 32 && (m.version ++ m.reason).all (· < 128) &&
+    parseDec m.codeText == some code && noCRLF (statusLine m) && m.headers.all goodHeaderB && m.framing.goodB m.body
+
+/-- the headers the application sees: the written ones, then the framing header -/
+def WMsg.parsedHeaders (m : WMsg) : List (Bytes × Bytes) := m.headers ++ m.framing.header.toList
 
 /-- what the application is handed for a written message -/
 def WMsg.msg (m : WMsg) (code : Nat) : Msg :=
